@@ -1,7 +1,7 @@
 (* C48 -- property theorems (statements only; proofs in C48Proofs.v; models in C48Model.v; spec in C48Spec.v).
    Exact rational arithmetic: floating-point rounding of the real code is checked by execution only. *)
 From Coq Require Import QArith List.
-From C48 Require Import C48Model C48Spec C48Proofs.
+From C48 Require Import C48Model C48Spec C48Proofs C48Newton.
 Import ListNotations.
 Local Open Scope Q_scope.
 
@@ -54,3 +54,35 @@ Theorem C48_convergence_enforces_loadings : forall eeps seps du r u1 s1 igrad if
   (forall c v, In (c, v) iforce -> Qabs' (nth c s1 0 - v) < seps).
 Proof. exact converged_sound. Qed.
 Print Assumptions C48_convergence_enforces_loadings.
+
+(* Newton loop `iterate` of GenericSolver.cxx (branch taken when u1 is not empty), any answers of the Study, 1 <= iterMax:
+   a successful attempt stopped on a pass k < iterMax whose integration succeeded and whose checkConvergence answered true
+   (not the first pass without prediction), every earlier pass was refused; the time step scaling factor returned is the one of
+   that pass; u1 = start - all corrections, u10 = iterate before the last correction *)
+Theorem C48_newton_success_is_a_checked_pass : forall itmax nopred orc u sf v1 v10 ni, (0 < itmax)%nat ->
+  iterate itmax nopred orc u = ItOk sf v1 v10 ni ->
+  exists k, ni = S k /\ success_trace itmax nopred orc k /\ sf = a_sf (orc k) /\ v1 = u_after orc (S k) u /\ v10 = u_after orc k u.
+Proof. exact iterate_ok. Qed.
+Print Assumptions C48_newton_success_is_a_checked_pass.
+
+Theorem C48_newton_iterations_bounded : forall itmax nopred orc u, (0 < itmax)%nat ->
+  match iterate itmax nopred orc u with ItOk _ _ _ ni | ItFail _ _ _ ni => (1 <= ni <= itmax)%nat end.
+Proof. exact iterate_niter. Qed.
+Print Assumptions C48_newton_iterations_bounded.
+
+(* with checkConvergence = the convergence predicate on the corrected unknowns: an accepted attempt leaves every imposed
+   gradient within eeps (on u1 as stored) and every imposed force within seps (on the forces of the last integration) *)
+Theorem C48_newton_success_enforces_loadings : forall itmax nopred orc u sf v1 v10 ni eeps seps igrad iforce (res s1 : nat -> list Q),
+  (0 < itmax)%nat ->
+  (forall k, a_chk (orc k) = true -> converged eeps seps (a_du (orc k)) (res k) (u_after orc (S k) u) (s1 k) igrad iforce = true) ->
+  iterate itmax nopred orc u = ItOk sf v1 v10 ni ->
+  exists k, ni = S k /\ norm_inf (a_du (orc k)) <= eeps /\ norm_inf (res k) <= seps /\
+    (forall c v, In (c, v) igrad -> Qabs' (nth c v1 0 - v) < eeps) /\
+    (forall c v, In (c, v) iforce -> Qabs' (nth c (s1 k) 0 - v) < seps).
+Proof. exact iterate_ok_loadings. Qed.
+Print Assumptions C48_newton_success_enforces_loadings.
+
+(* MTest_getErrorNorm, as found (std::max) and as repaired: on vectors without NaN both are the exact max norm of the model *)
+Theorem C48_error_norm_without_nan : forall v, norm_found (map Some v) = Some (norm_inf v) /\ norm_fixed (map Some v) = Some (norm_inf v).
+Proof. exact norms_without_nan. Qed.
+Print Assumptions C48_error_norm_without_nan.
